@@ -17,7 +17,7 @@ import (
 	"go.etcd.io/bbolt/verifh/model"
 )
 
-const c02Rule = "(A) generated sequences over {begin reader, close reader, dump reader, read through a reader, writer transaction with a generated workload ending in commit or rollback, probe, reopen} with up to 6 simultaneously open readers of different ages, both backends, freelist sync on/off, initial map sizes that do and do not force a remap - executed on one goroutine (a remap is announced by the hook before it takes the lock; the harness then compares and closes the readers, a legal schedule). After EVERY commit, rollback and at every close each open reader's complete view (buckets, keys, values, sequences, forward and backward order, tx id) is compared with the model of the version it started from. (B) the same oracle with real goroutines: reader goroutines loop begin/dump/compare/yield/dump/compare/rollback while a writer goroutine commits a generated workload; hook callbacks yield at every I/O call. Non-trivial (A) = some reader stayed open across a commit that released pages of the reader's version and a later commit, still during the reader's life, took pages from the free list (page sets from the independent decoder); (B) = a reader observed >=2 different versions during the run and dumps overlapped commits. Distinct = SHA-256 of the op log."
+const c02Rule = "(A) generated sequences over {begin reader, close reader, dump reader, read through a reader, writer transaction with a generated workload ending in commit, rollback or a FAILED commit (armed I/O fault on a write/sync/truncate call, or a size limit), probe, reopen} with up to 6 simultaneously open readers of different ages, both backends, freelist sync on/off, initial map sizes that do and do not force a remap - executed on one goroutine (a remap is announced by the hook before it takes the lock; the harness then compares and closes the readers, a legal schedule). After EVERY commit, rollback and at every close each open reader's complete view (buckets, keys, values, sequences, forward and backward order, tx id) is compared with the model of the version it started from. (B) the same oracle with real goroutines: reader goroutines loop begin/dump/compare/yield/dump/compare/rollback while a writer goroutine commits a generated workload; hook callbacks yield at every I/O call. Non-trivial (A) = some reader stayed open across a commit that released pages of the reader's version and a later commit, still during the reader's life, took pages from the free list (page sets from the independent decoder); (B) = a reader observed >=2 different versions during the run and dumps overlapped commits. Distinct = SHA-256 of the op log."
 
 func c02Cfg(excluded *int) gen.Cfg {
 	cfg := c04Cfg(excluded)
@@ -25,6 +25,7 @@ func c02Cfg(excluded *int) gen.Cfg {
 	cfg.MaxReaders = 6
 	cfg.ReaderBoost = 3
 	cfg.CommitWeight = 35
+	cfg.Faults = 3 // commits that fail on an injected write/sync/truncate error are "roll backs" too
 	return cfg
 }
 
@@ -40,6 +41,31 @@ func c02Install(e *drv.Env) *c02State {
 	e.BeforeRemap = func(e *drv.Env) { e.Label("remap-with-readers") }
 	e.AfterOpen = func(e *drv.Env) *drv.Violation {
 		_, v := st.vt.record(e, "after open")
+		return v
+	}
+	e.AfterFailure = func(e *drv.Env, err error) *drv.Violation {
+		if e.Failed == nil || !e.FailedInTx {
+			if !isMaxSize(err) {
+				return drv.Violf("commit failed with %v without an injected fault", err)
+			}
+		} else if e.FailedFinalSync {
+			_, a, v := decodeFile(e)
+			if v != nil {
+				return v
+			}
+			if int(a.Meta.Txid) == e.FailedTxid {
+				e.AdoptFailed()
+			}
+		}
+		e.FailAt = 0
+		e.Label("failed-commit-with-readers-possible")
+		if v := e.CompareReaders("after a failed commit"); v != nil {
+			return v
+		}
+		if v := e.CheckCommitted("after a failed commit"); v != nil {
+			return v
+		}
+		_, v := st.vt.record(e, "after a failed commit")
 		return v
 	}
 	e.AfterCommit = func(e *drv.Env, txid int) *drv.Violation {
@@ -92,8 +118,15 @@ func TestC02(t *testing.T) {
 	rapid.Check(t, func(rt *rapid.T) {
 		e := drv.NewEnv("c02")
 		defer e.Cleanup()
+		e.AllowCommitErr = true
 		var excluded int
 		cfg := c02Cfg(&excluded)
+		if rapid.IntRange(0, 7).Draw(rt, "maxsize") == 0 {
+			o := gen.Opts(rt, cfg)
+			o.MaxSize = rapid.SampledFrom([]int{48 << 10, 96 << 10, 200 << 10}).Draw(rt, "maxsizeval")
+			o.InitialMmapSize = 0
+			cfg.FixedOpts = &o
+		}
 		fail := func(v *drv.Violation) {
 			failCase(rt, replayDoc{Property: "C02", Kind: "history", Ops: e.Log}, v)
 		}
@@ -120,6 +153,7 @@ func replayC02(t *testing.T, d replayDoc) *drv.Violation {
 	}
 	e := drv.NewEnv("c02r")
 	defer e.Cleanup()
+	e.AllowCommitErr = true
 	st := c02Install(e)
 	aft := c02After(e, st)
 	for _, op := range d.Ops {
@@ -284,6 +318,7 @@ func TestC02Concurrent(t *testing.T) {
 		var excluded int
 		cfg := c02Cfg(&excluded)
 		cfg.Readers, cfg.Reopen, cfg.Probes = false, false, false
+		cfg.Faults = 0
 		cfg.CommitWeight = 30
 		failg := func(v *drv.Violation) {
 			log := g.Log
